@@ -452,6 +452,36 @@ func UlpShapes(cs [][]oracle.Pt) [][][]oracle.Pt {
 	return out
 }
 
+// Repeats: a contour covered several times (edges whose coverage adds up to +-2, +-3, +1 with
+// three coincident segments): the contour twice and three times in the same direction, twice with
+// one reversed copy, and three rectangles with a common left edge.
+func Repeats(cs [][]oracle.Pt) [][][]oracle.Pt {
+	rev := func(c []oracle.Pt) []oracle.Pt {
+		o := make([]oracle.Pt, len(c))
+		for i := range c {
+			o[i] = c[len(c)-1-i]
+		}
+		return o
+	}
+	var out [][][]oracle.Pt
+	for _, c := range cs {
+		if oracle.Orient(c[0], c[1], c[2]) == 0 && len(c) == 3 {
+			continue
+		}
+		out = append(out, [][]oracle.Pt{c, c}, [][]oracle.Pt{c, c, c}, [][]oracle.Pt{c, c, rev(c)}, [][]oracle.Pt{c, rev(c), c, c})
+	}
+	R := func(x0, y0, x1, y1 float64) []oracle.Pt {
+		return []oracle.Pt{{X: x0, Y: y0}, {X: x1, Y: y0}, {X: x1, Y: y1}, {X: x0, Y: y1}}
+	}
+	for _, hs := range [][3][2]float64{{{0, 3}, {0, 2}, {1, 3}}, {{0, 1}, {0, 2}, {0, 3}}, {{1, 2}, {0, 3}, {1, 3}}} {
+		for _, ws := range [][3]float64{{1, 2, 3}, {3, 2, 1}, {2, 2, 2}} {
+			a, b, c := R(0, hs[0][0], ws[0], hs[0][1]), R(0, hs[1][0], ws[1], hs[1][1]), R(0, hs[2][0], ws[2], hs[2][1])
+			out = append(out, [][]oracle.Pt{a, b, c}, [][]oracle.Pt{a, rev(b), c}, [][]oracle.Pt{rev(a), rev(b), rev(c)})
+		}
+	}
+	return out
+}
+
 func families(tier string) []fw.Family {
 	L3, L4 := oracle.Lattice(3), oracle.Lattice(4)
 	tri3r := oracle.ContoursModRotation(L3, 3)
@@ -470,6 +500,7 @@ func families(tier string) []fw.Family {
 		family("closed walks of 5 steps revisiting a vertex (L3)", single(oracle.WalksModRotation(L3, 5)), 1, 1e-8, 1e-6, false),
 		family("closed walks of 6 steps revisiting a vertex (L3)", single(oracle.WalksModRotation(L3, 6)), 1, 1e-8, 1e-6, false),
 		family("quad(L3)/rot with one vertex moved by one ulp in x or y", UlpShapes(oracle.ContoursModRotation(L3, 4)), 1, 1e-8, 1e-6, false),
+		family("a contour covered several times: tri(L3)/rot and quad(L3)/rot twice, three times, with a reversed copy; three rectangles on a common left edge", Repeats(append(append([][]oracle.Pt{}, tri3r...), oracle.ContoursModRotation(L3, 4)...)), 1, 1e-8, 1e-6, false),
 		family("open quad(L3)/rot (open subpaths, implicitly closed)", single(oracle.ContoursModRotation(L3, 4)), 1, 1e-8, 1e-6, true),
 	}
 	if tier == "thorough" {
